@@ -618,16 +618,27 @@ func (pr *pqRunner) oracleC04(base pqCase, expr string, root promParser.Node, no
 }
 
 // absentDupLabel: known finding C04-absent-duplicate-matcher for label `l`: the node contains absent()/absent_over_time()
-// of a plain (matrix) selector in which `l` is matched more than once (absentLabels then drops `l`, the engine keeps it
-// when the first equality matcher of `l` has a non-empty value and no other matcher of `l` follows).
+// whose argument is, after unwrapping parentheses (which the engine does and absentLabels does not), a plain (matrix)
+// selector in which `l` is matched more than once (absentLabels drops `l`, the engine keeps it when the first
+// equality matcher of `l` has a non-empty value and no other matcher of `l` follows) or which is parenthesised and has an
+// equality matcher on `l`.
 func absentDupLabel(node promParser.Node, l string) bool {
 	return anyNode(node, func(n promParser.Node) bool {
 		c, ok := n.(*promParser.Call)
 		if !ok || (c.Func.Name != "absent" && c.Func.Name != "absent_over_time") || len(c.Args) != 1 {
 			return false
 		}
+		arg := c.Args[0]
+		paren := false
+		for {
+			p, ok := arg.(*promParser.ParenExpr)
+			if !ok {
+				break
+			}
+			arg, paren = p.Expr, true
+		}
 		var vs *promParser.VectorSelector
-		switch a := c.Args[0].(type) {
+		switch a := arg.(type) {
 		case *promParser.VectorSelector:
 			vs = a
 		case *promParser.MatrixSelector:
@@ -636,13 +647,16 @@ func absentDupLabel(node promParser.Node, l string) bool {
 		if vs == nil {
 			return false
 		}
-		cnt := 0
+		cnt, eq := 0, false
 		for _, m := range vs.LabelMatchers {
 			if m.Name == l {
 				cnt++
+				if m.Type == labels.MatchEqual {
+					eq = true
+				}
 			}
 		}
-		return cnt > 1
+		return cnt > 1 || (paren && eq)
 	})
 }
 
@@ -1133,6 +1147,17 @@ func runPromql(prop string, args []string) int {
 // slice of the original text instead.
 func pqNodeText(expr string, nd promParser.Node) string {
 	lossy := anyNode(nd, func(n promParser.Node) bool {
+		// the printer may reorder the matchers of a selector; the order matters to absent() when a name is matched twice
+		if vs, ok := n.(*promParser.VectorSelector); ok {
+			seen := map[string]bool{}
+			for _, m := range vs.LabelMatchers {
+				if seen[m.Name] {
+					return true
+				}
+				seen[m.Name] = true
+			}
+			return false
+		}
 		b, ok := n.(*promParser.BinaryExpr)
 		if !ok || b.VectorMatching == nil {
 			return false
